@@ -139,8 +139,12 @@ def install(eng):
     def multiply(self, a, b, out=None):
         if isinstance(a, StackArr) and isinstance(b, StackArr) and out is a and a is b:
             for c in a.comps:
-                t = c.term
-                c.term = z3.simplify(t * t)
+                prod = c * c  # VArr arithmetic: numpy promotion and machine-integer wrap of the element type
+                from .npmodel import INT_BITS, UINT_BITS
+                if c.dtype_name in INT_BITS or c.dtype_name in UINT_BITS:
+                    lo, hi = (-(2 ** (INT_BITS[c.dtype_name] - 1)), 2 ** (INT_BITS[c.dtype_name] - 1) - 1) if c.dtype_name in INT_BITS else (0, 2 ** UINT_BITS[c.dtype_name] - 1)
+                    self.eng.oblige(f"no-overflow(np.multiply squares {c.dtype_name} elements in place)", z3.And(c.term * c.term >= lo, c.term * c.term <= hi), dtype=c.dtype_name)
+                c.term = z3.simplify(_cast_term(prod.term, prod.dtype_name, c.dtype_name))
                 self.eng.event("arr-write", c.buf, c.owner)
             return a
         raise Unsupported("np.multiply outside the modelled call shape")
